@@ -695,6 +695,8 @@ def rule_r5(chk):
         if letter not in seen:
             raise AnalysisError(f"anchor vanished: SystemMap.{letter}")
         r, c, wrt, off, node = seen[letter]
+        if letter == "B":
+            cols = c            # what the columns of B are is decided by evaluation (B[columns] below), not by the name of a local
         ok = (r, c) == (rows, cols) and wrt == "SV.eid_to_wrt_tokens" and off == "eid_to_rhs_offset"
         chk.ob("C02-R5", f"fords.descriptors.SystemMap.{letter}", ok,
                f"rows={r} columns={c} wrt={wrt} offsets={off}; shape_{letter} is (len({rows}), len({cols.replace('lagged_', '')}))", dm.loc(node))
@@ -722,8 +724,9 @@ def rule_r5(chk):
                 [(1, 2), (1, 1), (0, 0), (1, 0), (0, -1)]):
         tv = [_Tok(*x) for x in vec]
         try:
-            env_b = _fin.run_prefix(g, bnode, {"system_vectors": _fin.FinObj(transition_variables=tuple(tv), transition_eids=(), measurement_eids=())})
-            cols = list(_fin.ev(bcols, env_b))
+            helpers = _fin.module_funcs(dm)
+            env_b = _fin.run_prefix(g, bnode, {"system_vectors": _fin.FinObj(transition_variables=tuple(tv), transition_eids=(), measurement_eids=())}, helpers)
+            cols = list(_fin.ev(bcols, env_b, helpers))
         except (_fin.NotFinite, _fin.Raised) as ex:
             bad = None
             n_vec = 0
